@@ -780,6 +780,12 @@ func TestHostileConstants(t *testing.T) {
 	for _, l := range []uint64{0, 1, (32 << 20) - 1, 32 << 20, (32 << 20) + 1, 64 << 20, 256 << 20, 1 << 30, 1 << 32, 1 << 40, 1 << 63, ^uint64(0)} {
 		consts = append(consts, binary.AppendUvarint(nil, l), carWith(binary.AppendUvarint(nil, l)), carWith(append(binary.AppendUvarint(nil, l), 1, 0x71, 0x12, 0x20)))
 	}
+	// long runs at section / item boundaries (recursion per input byte would exhaust the stack)
+	for _, n := range []int{1 << 10, 1 << 16, 1 << 20, 8 << 20} {
+		z := make([]byte, n)
+		consts = append(consts, z, carWith(z), append(carWith(), z...))
+		consts = append(consts, bytes.Repeat([]byte{0xf6}, n), bytes.Repeat([]byte{0x40}, n), bytes.Repeat([]byte{0xd8, 0x2a}, n/2))
+	}
 	consts = append(consts, bytes.Repeat([]byte{0xff}, 11), carWith(bytes.Repeat([]byte{0x80}, 12)), []byte("===="), []byte("A==="), []byte("AAA"), []byte("AAAA\n\n\n"), []byte("!!!!"))
 	// deep nesting: arrays and maps
 	for _, d := range []int{1000, 10000, 100000} {
